@@ -34,6 +34,11 @@ def gen(rng, tier):
             sc2, bc2 = streamgen.stream_case(fam, cv[0], "plain", [], q3), streamgen.bytesc_case(fam, cv[0], q3)
             _pairs[sc2] = (bc2, q3, cv[0], fam)
             cases += [sc2, bc2]
+        for dv in streamgen.dynamic_path_variants(rng, data, meta):      # the dynamic table through the section only / the segment only
+            q3 = ["ehdr", "shdrs", "phdrs", "dynamic"]
+            sc2, bc2 = streamgen.stream_case(fam, dv, "plain", [], q3), streamgen.bytesc_case(fam, dv, q3)
+            _pairs[sc2] = (bc2, q3, dv, fam)
+            cases += [sc2, bc2]
         vv = streamgen.version_link_variant(rng, data, meta, info)
         if vv:                    # version sections naming different string tables
             q3 = ["ehdr", "shdrs", "phdrs"] + vv[1]
